@@ -1414,9 +1414,33 @@ def _hermetic():
             del os.environ[k]
 
 
+def _violations_in(exc, seen=None):
+    seen = set() if seen is None else seen
+    if exc is None or id(exc) in seen:
+        return []
+    seen.add(id(exc))
+    out = [exc] if isinstance(exc, Violation) else []
+    for sub in getattr(exc, "exceptions", ()) or ():
+        out += _violations_in(sub, seen)
+    out += _violations_in(exc.__cause__, seen) + _violations_in(exc.__context__, seen)
+    return out
+
+
 def _part(ctx, item):
     n, maxops = item
-    run_hypothesis(ctx, _scenarios(maxops), run_scenario, max_examples=n, shrink=ctx.thorough, max_rounds=4 if ctx.thorough else 2)
+    try:
+        run_hypothesis(ctx, _scenarios(maxops), run_scenario, max_examples=n, shrink=ctx.thorough, max_rounds=4 if ctx.thorough else 2)
+    except Exception as e:
+        # Hypothesis re-executes a failing example; if dulwich's answer depends on timing (stat data) the second
+        # execution may pass and Hypothesis raises FlakyFailure.  The violation was observed all the same: report it.
+        if type(e).__name__ not in ("FlakyFailure", "Flaky", "FlakyReplay"):
+            raise
+        vs = _violations_in(e)
+        if not vs:
+            raise
+        for v in vs:
+            ctx.record_violation(v.bucket, "[timing-dependent: not reproduced when re-executed at once] " + v.message, v.check, v.case)
+        ctx.label("flaky-failure")
 
 
 def run(ctx):
